@@ -414,7 +414,10 @@ class DrvRxChar(Contract):
             c.set_ptr(g, "rx.msg", mp)
             c.mp, c.b, c.t = mp, b, t
             c.inputs.update(stored=t - 4)
-        c.inputs.update(state=v.get(g, "rx.state"), dlci=v.get(g, "rx.dlci"))
+        # the complete receiver state of the counter-model (the replay drives the real receiver into exactly this state): state, address and
+        # control octet seen, and whether the address has a handler
+        dl_ = v.get(g, "rx.dlci")
+        c.inputs.update(state=v.get(g, "rx.state"), dlci=dl_, ctrl=v.get(g, "rx.ctrl"), handler=v.get(g, "rx.dlci_handler[]", dl_))
 
     def requires(self, c):
         st = c.view_pre.get(c.g, "rx.state")
